@@ -112,13 +112,16 @@ protected:
         return const_cast<std::vector<TermName> &>(namesForTerm(term));
     }
 
-    void pushScope() {
-        if (isGlobal()) { return; }
-        scopedNamesAndTerms.pushScope();
-    }
+    // Scope limits are tracked in every mode, so that the stack of limits always matches the assertion stack even if
+    // the global-declarations option is switched between a push and the matching pop
+    void pushScope() { scopedNamesAndTerms.pushScope(); }
 
     void popScope() {
-        if (isGlobal()) { return; }
+        if (isGlobal()) {
+            // names persist: they move to the enclosing scope
+            scopedNamesAndTerms.mergeScope();
+            return;
+        }
         scopedNamesAndTerms.popScope([this](auto const & p) {
             auto const & [name, term] = p;
             assert(not contains(term) or nameToTerm.find(name)->second.x == term.x);
